@@ -22,7 +22,7 @@ What is generated (every run, from /repo's current source), fail-closed (`Unsupp
  * `adjGen osh : Expr α → Expr α` — Conj / Add / Compose / Hstack / Vstack / Diag `_adjoint_linop` rules.
  * `adjOpaque : Opaque α → Opaque α` — FFT↔IFFT, Wavelet↔InverseWavelet, ConvolveData(+Adjoint),
    ConvolveFilter(+Adjoint), NUFFT↔NUFFTAdjoint: class and arguments of the returned operator.
- * `applyGen : Leaf α → Option Prim` — for the fifteen classes whose `_apply` is one call on `input` (or `zeros; out[idx] = input`)
+ * `applyGen : Leaf α → Option (Prim α)` — for the fifteen classes whose `_apply` is one call on `input` (or `zeros; out[idx] = input`)
    (`return input`, `input.reshape(..)`, `input.transpose(..)`, `input[..]`, `util.resize/flip/circshift/downsample/
    upsample(input, ..)` with the arguments bound by the util function's signature read from util.py,
    `xp.asarray(xp.sum(input, axis=..))`, `block.array_to_blocks`, `interp.interpolate`): which primitive with which
@@ -592,7 +592,7 @@ def _finite_difference(tree):
 
 # ---- `_apply` bodies ---------------------------------------------------------------------------------
 APPLY_CLASSES = ["Identity", "Reshape", "Transpose", "Resize", "Flip", "Circshift", "Downsample", "Upsample", "Sum",
-                 "Slice", "Embed", "ArrayToBlocks", "BlocksToArray", "Interpolate", "Gridding"]
+                 "Slice", "Embed", "ArrayToBlocks", "BlocksToArray", "Interpolate", "Gridding", "MatMul", "RightMatMul"]
 UTIL_PRIMS = {"resize": ("resize", ["oshape", "ishift", "oshift"]), "flip": ("flip", ["axes"]),
               "circshift": ("circshift", ["shifts", "axes"]), "downsample": ("downsample", ["factors", "shift"]),
               "upsample": ("upsample", ["oshape", "factors", "shift"])}
@@ -634,6 +634,44 @@ def _apply_return(cname, fn):
     return rets[0], alias
 
 
+def _matmul_apply(classes, cname, fn):
+    """mat = to_device(self.mat); with device: [if self.FLAG: mat = xp.conj(mat).swapaxes(-1, -2)]; return
+    xp.matmul(mat, input) | xp.matmul(input, mat)"""
+    flat = []
+
+    def walk(stmts):
+        for st in stmts:
+            if isinstance(st, ast.Expr) and isinstance(st.value, ast.Constant):
+                continue
+            if isinstance(st, ast.With):
+                if [(_src(i.context_expr), i.optional_vars) for i in st.items] != [("device", None)]:
+                    raise U("%s._apply: with" % cname)
+                walk(st.body)
+            elif isinstance(st, ast.Assign) and _src(st) in ("device = backend.get_device(input)", "xp = device.xp"):
+                continue
+            else:
+                flat.append(st)
+
+    walk(fn.body)
+    tr = _Tr(classes, cname)
+    if len(flat) != 3 or _src(flat[0]) != "mat = backend.to_device(self.mat, device)":
+        raise U("%s._apply: %s" % (cname, [_src(x) for x in flat]))
+    msh, mat = tr.attr("mat")
+    cond = flat[1]
+    if not (isinstance(cond, ast.If) and not cond.orelse and isinstance(cond.test, ast.Attribute)
+            and _src(cond.test.value) == "self" and [_src(x) for x in cond.body] == ["mat = xp.conj(mat).swapaxes(-1, -2)"]):
+        raise U("%s._apply: %s" % (cname, _src(cond)))
+    (flag,) = tr.attr(cond.test.attr)
+    ret = _src(flat[2])
+    if ret == "return xp.matmul(mat, input)":
+        right = "false"
+    elif ret == "return xp.matmul(input, mat)":
+        right = "true"
+    else:
+        raise U("%s._apply: %s" % (cname, ret))
+    return ".matmul %s %s %s %s" % (right, msh, mat, flag)
+
+
 def _apply_arm(tree, util_tree, classes, cname):
     cls = classes[cname]
     fn_apply = T.find_function(tree, cname + "._apply")
@@ -645,6 +683,8 @@ def _apply_arm(tree, util_tree, classes, cname):
         t0 = _Tr(classes, cname)
         (osh,), (idx,) = t0.attr("oshape"), t0.tr(body[1].targets[0].slice)
         return ".setitemZeros %s %s" % (osh, idx)
+    if cname in ("MatMul", "RightMatMul"):
+        return _matmul_apply(classes, cname, fn_apply)
     ret, alias = _apply_return(cname, fn_apply)
     tr = _Tr(classes, cname)
     if cname == "Transpose":
@@ -732,7 +772,7 @@ def _apply_table(tree, classes):
         arms.append("  -- %s._apply: %s\n  | %s => some (%s)" % (cname, src[:150], _pattern(cname),
                                                               _apply_arm(tree, util_tree, classes, cname)))
     return ("/-- generated from the `_apply` bodies that are a single call on `input`: the primitive and its arguments -/\n"
-            "def applyGen {α : Type} : Leaf α → Option Prim\n" + "\n".join(arms) + "\n  | _ => none\n")
+            "def applyGen {α : Type} : Leaf α → Option (Prim α)\n" + "\n".join(arms) + "\n  | _ => none\n")
 
 
 def gen_linop_adjoint(ctx=None):
